@@ -93,8 +93,6 @@ def op_to_coq(op):
             return "(OMk %s)" % to_coq(from_json(op["v"]))
         except (ValueError, TypeError):
             return None
-    if o in ("construct", "factory_create", "bundle") and op["cls"].startswith("custom."):
-        return None               # classes registered by the worker are not in the model's class tables
     if o == "construct":
         return "(OConstruct %s %d)" % (us(op["cls"]), op["kw"])
     if o == "bundle":
@@ -570,10 +568,13 @@ def sc_bundle_store(rng):
             objs.append(b.add(op="construct", cls=cls_name(ver, CLS[ty]), kw=b.mk(sdo_kw(rng, ver, ty))))
         else:
             objs.append(b.mk(share_members(b, sdo_kw(rng, ver, ty, full=True))))
+    if ver == "2.1" and rng.random() < 0.4:
+        # an observable in a bundle is NOT kept: STIXObjectProperty re-parses dict(value)
+        objs.append(b.add(op="construct", cls="v21.File", kw=b.mk(file_kw(rng, ver, Ref(b.mk(ext_tree(rng, ver)))))))
     lst = b.mk([Ref(i) for i in objs])
     r = rng.random()
     if r < 0.25:
-        bun = b.add(op="bundle", cls=cls_name(ver, "Bundle"), args=objs[:2])
+        bun = b.add(op="bundle", cls=cls_name(ver, "Bundle"), args=objs[-2:])
     elif r < 0.45:
         bun = b.add(op="bundle", cls=cls_name(ver, "Bundle"), args=[lst])
     elif r < 0.7:
@@ -880,7 +881,8 @@ def sc_custom_types(rng):
     return b.case()
 
 
-SNAPSHOT_ONLY = [(sc_api, 3), (sc_stores, 2), (sc_custom_types, 2)]
+SNAPSHOT_ONLY = [(sc_api, 3), (sc_stores, 2)]
+MODELLED.append((sc_custom_types, 3))
 
 
 KIND_OF = {sc_custom_types: "custom-types", sc_api_markings: "api-markings", sc_extensions: "extensions", sc_observed: "observed-data", sc_sdo: "sdo", sc_markings: "markings",
